@@ -1,0 +1,11 @@
+//go:build verif
+
+package shaping
+
+import "golang.org/x/image/math/fixed"
+
+// VerifLetterSpacing exposes the unexported letter spacing bookkeeping of a glyph.
+// Used by the external verification harness only.
+func VerifLetterSpacing(g *Glyph) (start, end fixed.Int26_6) {
+	return g.startLetterSpacing, g.endLetterSpacing
+}
